@@ -1487,6 +1487,22 @@ def _base_repr(v: Any, base: Any) -> str:
     return ("-" if neg else "") + out
 
 
+_NO_DEFAULT = object()
+
+
+def _next(it: Any, default: Any = _NO_DEFAULT) -> Any:
+    """next() on an iterator object: takes its first remaining item"""
+    if not isinstance(it, OneShot):
+        if isinstance(it, (list, tuple, str, dict, set, range)):
+            raise Raised(f"TypeError('{type(it).__name__}' object is not an iterator)")
+        raise Undecided("next() of an abstract value")
+    if len(it):
+        return it.pop(0)
+    if default is _NO_DEFAULT:
+        raise Raised("StopIteration()")
+    return default
+
+
 def _zip(xs: Any, strict: bool = False) -> List[Any]:
     ls = [list(x) for x in xs]
     if strict and len({len(l) for l in ls}) > 1:
@@ -1562,6 +1578,7 @@ BUILTINS: Dict[str, Callable[..., Any]] = {
     "copy.deepcopy": lambda x: __import__("copy").deepcopy(x),
     "copy.copy": lambda x: __import__("copy").copy(x),
     "iter": lambda x: x if isinstance(x, OneShot) else OneShot(x),
+    "next": lambda it, *default: _next(it, *default),
     "itertools.chain": lambda *xs: OneShot([y for x in xs for y in x]),
     "itertools.chain.from_iterable": lambda xs: OneShot([y for x in xs for y in x]),
     "chain.from_iterable": lambda xs: OneShot([y for x in xs for y in x]),
